@@ -820,7 +820,44 @@ def update_sessions(tier, seed):
                 cid += 1
                 cases.append({"cid": cid, "kind": "upd", "mode": "write", "query": text, "dump": True, "meta": {"ast": ast, "rep": 2}})
         sessions.append({"id": "upd/%d" % g, "setup": setup, "dump": True, "cases": cases})
+    sessions.append(merge_rel_session())
     return sessions
+
+
+def merge_rel_session():
+    """MERGE of a relationship with an inline property map against stored relationships that lack the key, have another
+    value, or have it (each statement twice: the second run must create nothing)"""
+    setup = ["CREATE (a:A {p: 1}), (b:B {p: 2}), (c:C {p: 3}), (a)-[:T]->(b), (a)-[:U {j: 5}]->(b), (b)-[:T {k: 1}]->(c)"]
+
+    def case(x, xl, y, yl, t, key, val, oc=False, om=False):
+        mp_nodes = [{"v": "x", "labels": [], "props": []}, {"v": "y", "labels": [], "props": []}]
+        props = [[key, ["lit", tv_of(val)]]]
+        mp = {"nodes": mp_nodes, "rels": [{"v": "m", "types": [t], "dir": "out", "lo": 1, "hi": 1, "mprops": props}]}
+        cp = {"nodes": mp_nodes, "rels": [{"v": "m", "types": [t], "tcps": [cps(t)], "dir": "out", "props": props, "lo": 1, "hi": 1}]}
+        oncreate = [{"k": "prop", "var": "m", "key": "w", "e": ["lit", tv_of(1)]}] if oc else []
+        onmatch = [{"k": "prop", "var": "m", "key": "u", "e": ["lit", tv_of(2)]}] if om else []
+        parts = [{"t": "match", "opt": False, "pats": [{"nodes": [{"v": "x", "labels": [xl], "props": []}], "rels": []},
+                                                        {"nodes": [{"v": "y", "labels": [yl], "props": []}], "rels": []}], "where": ["none"]}]
+        ast = {"parts": parts, "updates": [{"t": "merge", "pat": cp, "mpat": mp, "oncreate": oncreate, "onmatch": onmatch}]}
+        q = "MATCH (x:%s), (y:%s) MERGE (x)-[m:%s {%s: %s}]->(y)" % (xl, yl, t, key, lit_text(val))
+        if oc:
+            q += " ON CREATE SET m.w = 1"
+        if om:
+            q += " ON MATCH SET m.u = 2"
+        return ast, q
+    specs = [("x", "A", "y", "C", "T", "k", 1, False, False),      # no relationship at all: creates
+             ("x", "B", "y", "C", "T", "k", 1, False, True),       # stored one has k = 1: matches
+             ("x", "B", "y", "C", "T", "k", 2, True, False),       # stored one has another value: creates
+             ("x", "A", "y", "B", "U", "k", 1, True, True),        # stored U lacks k: creates
+             ("x", "A", "y", "B", "U", "j", 5, True, True),        # stored U has j = 5: matches
+             ("x", "A", "y", "B", "T", "k", 1, True, True)]        # stored T has no properties: creates
+    cases, cid = [], 0
+    for sp in specs:
+        ast, q = case(*sp)
+        for rep in (1, 2):
+            cid += 1
+            cases.append({"cid": cid, "kind": "upd", "mode": "write", "query": q, "dump": True, "meta": {"ast": ast, "rep": rep}})
+    return {"id": "upd/merge-rel-props", "setup": setup, "dump": True, "cases": cases}
 
 
 # ----------------------------------------------------------------------------- C13 / C14 / C24: C API scripts
